@@ -59,7 +59,7 @@ def make_case(rng: random.Random, index: int) -> Dict[str, Any]:
     elif kind == 1:
         hists = {a: single_type_history(rng, a) for a in ("AAA", "BBB")[: rng.randint(1, 2)]}
     else:
-        hists = cli_histories(rng, rng.randint(1, 3), cli_profile(p_earn=0.5, p_intra=0.25, max_events=rng.choice((10, 18)), min_events=4))
+        hists = cli_histories(rng, rng.randint(1, 3), cli_profile(p_earn=0.5, p_intra=0.25, max_events=rng.choice((10, 18)), min_events=4, mixed_tz=rng.random() < 0.35, gap_style=rng.choice(("mixed", "boundary", "medium"))))
     country = "us" if index % 3 else "ie"
     method = rng.choice(METHODS) if country == "us" else "fifo"
     days = sorted({d for h in hists.values() for d in candidate_days(rng, h, 5)})
